@@ -17,8 +17,9 @@ def free_port():
 
 
 class Agent:
-    def __init__(self, ctx, root):
+    def __init__(self, ctx, root, extra_args=(), default=1, extra_users=None):
         self.ctx, self.root = ctx, root
+        self.tmo = 5
         self.base = os.path.join(root, "base")
         os.makedirs(self.base, mode=0o700)
         for u, pw in RIGHT.items():
@@ -26,8 +27,10 @@ class Agent:
                 continue            # not a valid name: cannot exist
             ext = "admin" if u == "alice" else "user"
             open(os.path.join(self.base, "%s.%s" % (u, ext)), "wb").write(fsfam.scrypt_record(pw).encode() + b"totp: QUJD\n")
+        for u, pw in (extra_users or {}).items():
+            open(os.path.join(self.base, "%s.user" % u), "wb").write(fsfam.scrypt_record(pw).encode())
         self.cfg = os.path.join(root, "store.yaml")
-        open(self.cfg, "w").write(fsfam.CFG % (self.base, base64.b64encode(fsfam.HMAC1).decode()))
+        open(self.cfg, "w").write((fsfam.CFG % (self.base, base64.b64encode(fsfam.HMAC1).decode())).replace("default: 1", "default: %d" % default))
         self.sock = os.path.join(root, "sasl.sock")
         self.http, self.ldap = free_port(), free_port()
         self.lcfg = os.path.join(root, "listener.yaml")
@@ -36,13 +39,15 @@ class Agent:
         self._frag = 0
         self.exe = ctx.build_agent()
         self.drv = ctx.build("./cmd/storedrv")
-        self.proc = subprocess.Popen([self.exe, "--store", self.cfg, "run", "--listener", self.lcfg], stdout=subprocess.PIPE,
+        # (the agent's log goes to a file: a pipe nobody reads fills up and then blocks the agent inside its log calls)
+        self.logf = open(os.path.join(root, "agent.log"), "wb")
+        self.proc = subprocess.Popen([self.exe, "--store", self.cfg] + list(extra_args) + ["run", "--listener", self.lcfg], stdout=self.logf,
                                      stderr=subprocess.STDOUT)
         for _ in range(200):
             if os.path.exists(self.sock) and self._port_open(self.http) and self._port_open(self.ldap):
                 return
             time.sleep(0.05)
-        ctx.fatal("the agent did not come up: %s" % self.proc.stdout.read(2000))
+        ctx.fatal("the agent did not come up: %s" % open(os.path.join(root, "agent.log"), "rb").read(2000))
 
     def _port_open(self, p):
         try:
@@ -71,7 +76,7 @@ class Agent:
         if len(user) > 65535 or len(pw) > 65535:
             return None
         s = socket.socket(socket.AF_UNIX)
-        s.settimeout(5)
+        s.settimeout(self.tmo)
         s.connect(self.sock)
         msg = b"".join(struct.pack(">H", len(x)) + x for x in (user, pw, b"imap", b"realm"))
         # fragmentation: the verdict must not depend on how the bytes arrive (segments ending inside a field body,
@@ -108,7 +113,7 @@ class Agent:
         return data[2:4] == b"OK"
 
     def basic(self, user, pw):
-        c = http.client.HTTPConnection("127.0.0.1", self.http, timeout=5)
+        c = http.client.HTTPConnection("127.0.0.1", self.http, timeout=self.tmo)
         c.putrequest("GET", "/basic-auth")
         c.putheader("Authorization", "Basic " + base64.b64encode(user + b":" + pw).decode())
         c.endheaders()
@@ -122,7 +127,7 @@ class Agent:
             body = json.dumps({"username": user.decode("utf-8"), "password": pw.decode("utf-8")})
         except UnicodeDecodeError:
             return None
-        c = http.client.HTTPConnection("127.0.0.1", self.http, timeout=5)
+        c = http.client.HTTPConnection("127.0.0.1", self.http, timeout=self.tmo)
         c.request("POST", "/api/authenticate", body=body, headers={"Content-Type": "application/json"})
         r = c.getresponse()
         out = r.read()
@@ -146,7 +151,7 @@ class Agent:
             return bytes([tag]) + ln + content
         bind = ber(0x60, ber(0x02, b"\x03") + ber(0x04, user) + ber(0x80, pw))
         msg = ber(0x30, ber(0x02, b"\x01") + bind)
-        s = socket.create_connection(("127.0.0.1", self.ldap), timeout=5)
+        s = socket.create_connection(("127.0.0.1", self.ldap), timeout=self.tmo)
         s.sendall(msg)
         data = b""
         try:
@@ -249,6 +254,67 @@ def history(ctx, ag):
     return n
 
 
+def upgrade_pressure(ctx):
+    """Local upgrades switched on, every record upgradeable (default set 2, records of set 1) and every upgrade refused by a
+    password policy the stored passwords do not meet: the internal upgrade queue stays full under a burst of right-password
+    logins.  Whatever happens to the upgrade requests, the verdict of each login is the store's."""
+    root = os.path.join(ctx.scratch, "c04up")
+    os.makedirs(root, exist_ok=True)
+    # long passwords: the policy evaluation of each (refused) upgrade takes much longer than a login, so the 10-slot queue fills
+    slow = {"slow%d" % i: ("correct horse battery staple %d " % i * 4).encode() for i in range(3)}
+    ag = Agent(ctx, root, extra_args=["--do-upgrades", "local", "--policy-type", "zxcvbn", "--policy-condition", "entropy >= 2000"], default=2,
+               extra_users=slow)
+    ag.tmo = 120           # slow is fine here (every login costs a policy evaluation on top), wrong is not
+    n = 0
+    try:
+        for name, fn in (("sasl", ag.sasl), ("basic", ag.basic), ("json", ag.jsonapi), ("ldap", ag.ldapbind)):
+            jobs = [(("slow%d" % (i % 3)).encode(), i % 5 != 0) for i in range(150 if ctx.tier == "quick" else 600)]
+            def one(j):
+                u, right = j
+                try:
+                    return j, fn(u, slow[u.decode()] if right else b"wrong password")
+                except Exception as ex:
+                    return j, repr(ex)
+            with concurrent.futures.ThreadPoolExecutor(max_workers=48) as ex:
+                for (u, right), got in ex.map(one, jobs):
+                    n += 1
+                    if got is False and right:
+                        ctx.violation("C04", "denied-although-store-accepts:%s:upgrade-queue-full" % name,
+                                      "user %r with the right password denied while upgrade requests pile up (local upgrades, every upgrade refused by the policy)" % u)
+                    elif got is True and not right:
+                        ctx.violation("C04", "accepted-although-store-denies:%s:upgrade-queue-full" % name, "user %r wrong password accepted" % u)
+                    elif got not in (True, False):
+                        ctx.violation("C04", "concurrent-logins:error:" + name, str(got))
+    finally:
+        ag.stop()
+    return n
+
+
+def missing_members(ctx, ag):
+    """A JSON login without a password member (or with null), sent right after a complete login of the same user: the store
+    denies (user, ""), so must the API - whatever an earlier request carried."""
+    n = 0
+    def post(body):
+        c = http.client.HTTPConnection("127.0.0.1", ag.http, timeout=5)
+        c.request("POST", "/api/authenticate", body=body, headers={"Content-Type": "application/json"})
+        r = c.getresponse(); out = r.read(); c.close()
+        return r.status, out
+    for user, pw in (("alice", RIGHT["alice"]), ("bob", RIGHT["bob"])):
+        for probe in ('{"username": %s}', '{"username": %s, "password": null}', '{"password": null, "username": %s}'):
+            for _ in range(6):
+                for _ in range(3):
+                    st, _ = post(json.dumps({"username": user, "password": pw.decode()}))
+                    if st != 200:
+                        ctx.inconclusive.append("missing-member leg: the complete login of %s was refused (%s)" % (user, st))
+                        return n
+                st, out = post(probe % json.dumps(user))
+                n += 1
+                if st == 200:
+                    ctx.violation("C04", "accepted-although-store-denies:json:missing-password-member",
+                                  "after a complete login of %s, the body %s is answered 200 %s; the store denies (%s, \"\")" % (user, probe % json.dumps(user), out[:80], user))
+    return n
+
+
 def run(ctx):
     thorough = ctx.tier == "thorough"
     res = ctx.run_tlc("Frontends.tla", "MC_Frontends.cfg", workers=1, timeout=300)
@@ -274,8 +340,10 @@ def run(ctx):
             results = list(ex.map(one, enumerate(cases)))
         nburst = burst(ctx, ag)
         nhist = history(ctx, ag)
+        nmiss = missing_members(ctx, ag)
     finally:
         ag.stop()
+    nup = upgrade_pressure(ctx)
     for e, user, pw, want, got, err in results:
         c = e["case"]
         key = "%s:%s/%s" % (c["transport"], c["user"], c["pw"])
@@ -295,7 +363,7 @@ def run(ctx):
     ncli = clifam.replay(ctx, "C04", only=lambda c: c["cmd"] == "authenticate")
     cov = ctx.coverage
     cov.update({"states": res["distinct"] + cov.get("states", 0), "transitions": res["generated"], "traces_validated_against_impl": n, "evaluations": n,
-                "distinct_nontrivial": len(cases), "accepted": accepts, "concurrent_logins": nburst, "history_steps": nhist,
+                "distinct_nontrivial": len(cases), "accepted": accepts, "concurrent_logins": nburst, "history_steps": nhist, "missing_member_probes": nmiss, "logins_under_upgrade_pressure": nup,
                 "rule": "every (transport, user-name class, password class) case of Frontends is instantiated with real bytes and submitted to "
                         "the running agent binary (saslauthd socket, HTTP basic-auth, JSON API, LDAP simple bind, CLI); the expected verdict is "
                         "store.Dir.Authenticate on the same directory for the name the module says the transport must use"})
